@@ -8,8 +8,9 @@
 //	alt   every alteration from the operator set below of every VALID encoding produced by the real encoders
 //	      (see encodings in prep.go): same | trunc@k (every proper prefix) | set8@p (byte p := 00,01,7F,80,FF) |
 //	      set16/set32/set64@p (big-endian field at p := 0, 1, v-1, v+1, all-ones; v = current value) |
-//	      drop@p | dup@p. For on-disk files p ranges over a stated position set (header/metadata region,
-//	      first/last 64 bytes, every length-looking field; whole file when it is small);
+//	      drop@p | dup@p. For on-disk files p ranges over a stated position set (quick: metadata header + first/last
+//	      64 bytes of the body; thorough: whole files up to 4 KiB); the targets that open a store or a file per
+//	      input (chunk 256) leave out set64 and dup in the quick tier;
 //	tok   SQL text: all token sequences of length <= 4 (quick) / 5 (thorough) over the 26-token alphabet
 //	      sqlTokens, plus every single-token deletion and duplication of the corpus sqlCorpus.
 //
@@ -282,10 +283,13 @@ func rawFam(t *target, n int) []*family {
 
 // altFams: one family per (encoding, operator kind), so that the event cap of a job only cuts the operator
 // that keeps killing the process.
-func altFams(t *target, e *enc, chunk int) (fs []*family) {
+func altFams(t *target, e *enc, chunk int, skip map[string]bool) (fs []*family) {
 	byKind := map[string][]altOp{}
 	var kinds []string
 	for _, o := range altOps(e) {
+		if skip[o.kind] {
+			continue
+		}
 		if byKind[o.kind] == nil {
 			kinds = append(kinds, o.kind)
 		}
@@ -359,7 +363,7 @@ func childMain() {
 		if bs, err := os.ReadFile("/proc/self/statm"); err == nil {
 			fmt.Sscan(string(bs), &vsz)
 		}
-		if lim := vsz*uint64(os.Getpagesize()) + 768<<20; vsz > 0 {
+		if lim := vsz*uint64(os.Getpagesize()) + 160<<20; vsz > 0 {
 			syscall.Setrlimit(syscall.RLIMIT_AS, &syscall.Rlimit{Cur: lim, Max: lim})
 		}
 	}
@@ -514,6 +518,7 @@ type worker struct {
 	last   [2]uint64
 }
 
+// tailBuf keeps the stderr of a child: the first 64 KiB are enough to hold the head of a crash report.
 type tailBuf struct {
 	mu sync.Mutex
 	b  []byte
@@ -521,14 +526,31 @@ type tailBuf struct {
 
 func (t *tailBuf) Write(p []byte) (int, error) {
 	t.mu.Lock()
-	t.b = append(t.b, p...)
-	if len(t.b) > 6000 {
-		t.b = t.b[len(t.b)-6000:]
+	if n := 64<<10 - len(t.b); n > 0 {
+		t.b = append(t.b, p[:min(n, len(p))]...)
 	}
 	t.mu.Unlock()
 	return len(p), nil
 }
 func (t *tailBuf) String() string { t.mu.Lock(); defer t.mu.Unlock(); return string(t.b) }
+
+// crashHead cuts the crash report of the runtime out of a child's stderr: message + first goroutine.
+func crashHead(stderr string) string {
+	i := strings.Index(stderr, "fatal error:")
+	if k := strings.Index(stderr, "panic: "); k >= 0 && (i < 0 || k < i) {
+		i = k
+	}
+	if i < 0 {
+		return tail(stderr, 1500)
+	}
+	s := stderr[i:]
+	if k := strings.Index(s, "\n\ngoroutine "); k >= 0 {
+		if k2 := strings.Index(s[k+2:], "\n\n"); k2 >= 0 {
+			s = s[:k+2+k2]
+		}
+	}
+	return trunc(s, 2500)
+}
 
 var scratch string
 
@@ -823,7 +845,7 @@ func execJob(w *worker, j job) {
 				d, hx = inputDesc(in, desc), hex.EncodeToString(in)
 			}
 			addViolation(vmsg{Class: "crash", T: j.T, F: j.F, At: crashSite(ev.text), Desc: d, Hex: hx, I: culprit,
-				Detail: "counted once per job; the process died (unrecoverable fatal error or panic in a goroutine the caller cannot guard):\n" + tail(ev.text, 1800)})
+				Detail: "the process died (unrecoverable fatal error, or panic in a goroutine the caller cannot guard):\n" + crashHead(ev.text)})
 		case "hang":
 			again := 0
 			for k := 0; k < 2; k++ {
@@ -857,23 +879,18 @@ func tail(s string, n int) string {
 	return s
 }
 
-var fatalRe = regexp.MustCompile(`(?m)^(fatal error: .*|panic: .*)$`)
 
-// crashSite: "fatal error: ..." / first immudb frame of the crashing goroutine.
+// crashSite: kind of fatal error / "goroutine-panic" and the first immudb frame of the crash report.
 func crashSite(stderr string) string {
-	i := strings.LastIndex(stderr, "fatal error:")
-	if k := strings.LastIndex(stderr, "\npanic: "); k > i {
-		i = k + 1
-	}
-	if i < 0 {
-		return "?"
-	}
-	s := stderr[i:]
-	head := fatalRe.FindString(s)
-	if strings.HasPrefix(head, "panic: ") {
+	s := crashHead(stderr)
+	head := strings.SplitN(s, "\n", 2)[0]
+	switch {
+	case strings.HasPrefix(head, "panic: "):
 		head = "goroutine-panic"
-	} else {
+	case strings.HasPrefix(head, "fatal error: "):
 		head = strings.ReplaceAll(strings.TrimPrefix(head, "fatal error: "), " ", "-")
+	default:
+		return "?"
 	}
 	return head + "@" + panicSite(s)
 }
@@ -905,6 +922,18 @@ var jobsDone int64
 var jobTime = map[string]float64{}
 
 func printSlowest() {
+	byT := map[string]float64{}
+	for k, v := range jobTime {
+		byT[strings.Fields(k)[0]] += v
+	}
+	var ts []string
+	for k := range byT {
+		ts = append(ts, k)
+	}
+	sort.Slice(ts, func(a, b int) bool { return byT[ts[a]] > byT[ts[b]] })
+	for _, k := range ts {
+		fmt.Fprintf(os.Stderr, "  target: %7.1fs %s\n", byT[k], k)
+	}
 	var ks []string
 	for k := range jobTime {
 		ks = append(ks, k)
